@@ -332,9 +332,18 @@ def h_r1(p: Project, rep: Report):
     seeks = [(n, c) for n in cfg.nodes for c in n.calls() if isinstance(c.func, ast.Attribute) and c.func.attr == "seek" and text(c.func.value) == src and c.args and not (isinstance(c.args[0], ast.Constant) and c.args[0].value == 0)]
     if not seeks:
         raise AnalysisError("H-R1: v1 seek(<start> + <offset>) not found")
+    hx = Expander(fn)
     for n, c in seeks:
         arg = c.args[0]
+        if isinstance(arg, ast.Name):
+            # a named temporary for the position: look through one plain assignment
+            ads = [d for d in defs.get(arg.id, []) if d.kind == "assign" and isinstance(d.value, ast.AST)]
+            if len(ads) == 1 and len(defs.get(arg.id, [])) == 1 and isinstance(ads[0].value, ast.BinOp):
+                arg = ads[0].value
         names = [x for x in (arg.left, arg.right)] if isinstance(arg, ast.BinOp) and isinstance(arg.op, ast.Add) else []
+        if not names and not isinstance(arg, (ast.Name, ast.Constant)):
+            rep.note(f"H-R1 undecided: the source is repositioned to {text(arg)[:60]}")
+            continue
         start_n = off_n = None
         for x in names:
             if isinstance(x, ast.Name):
@@ -352,19 +361,25 @@ def h_r1(p: Project, rep: Report):
         # R: the argument of OFXHeaderV1.parse
         pd = [d for d in defs[off_n] if d.kind == "unpack"][0]
         R = pd.value.args[0]
-        if not isinstance(R, ast.Name):
-            raise AnalysisError(f"H-R1: raw header is {text(R)} (not a plain accumulated name)")
-        for d in defs.get(R.id, []):
-            if d.kind == "assign":
-                vals = [text(v) for v in resolve_values(d.value, cfg.node_of(d.stmt), reach)]
-                good = bool(vals) and all(_is_chunk(v, src) for v in vals)
-                rep.check("H-R1", "parse_header:rawheader-starts-with-first-line-as-read", good, f"the raw header starts as {vals}: it differs from the bytes consumed since the start position (inserted, stripped or re-encoded characters shift the seek offset)" if not good else "", hloc(p, d.stmt))
-            elif d.kind == "augassign":
-                v = text(d.stmt.value)
-                good = isinstance(d.stmt.op, ast.Add) and _is_chunk(v, src)
-                rep.check("H-R1", "parse_header:rawheader-extended-with-lines-as-read", good, f"the raw header is extended with {v}" if not good else "", hloc(p, d.stmt))
+        R_defs = defs.get(R.id, []) if isinstance(R, ast.Name) else []
+        if isinstance(R, ast.Name) and any(d.kind == "augassign" for d in R_defs):
+            for d in R_defs:
+                if d.kind == "assign":
+                    vals = [text(v) for v in resolve_values(d.value, cfg.node_of(d.stmt), reach)]
+                    good = bool(vals) and all(_is_chunk(v, src) for v in vals)
+                    rep.check("H-R1", "parse_header:rawheader-starts-with-first-line-as-read", good, f"the raw header starts as {vals}: it differs from the bytes consumed since the start position (inserted, stripped or re-encoded characters shift the seek offset)" if not good else "", hloc(p, d.stmt))
+                elif d.kind == "augassign":
+                    v = text(d.stmt.value)
+                    good = isinstance(d.stmt.op, ast.Add) and _is_chunk(v, src)
+                    rep.check("H-R1", "parse_header:rawheader-extended-with-lines-as-read", good, f"the raw header is extended with {v}" if not good else "", hloc(p, d.stmt))
+                else:
+                    raise AnalysisError(f"H-R1: raw header bound by {d.kind}")
+        else:
+            r_ = _chunks_only(R, src, hx)
+            if r_ is None:
+                rep.note(f"H-R1 undecided: raw header built as {hx.t(R)[:80]}")
             else:
-                raise AnalysisError(f"H-R1: raw header bound by {d.kind}")
+                rep.check("H-R1", "parse_header:rawheader-starts-with-first-line-as-read", r_, f"the raw header is {hx.t(R)[:80]}: it differs from the bytes consumed since the start position (inserted, stripped or re-encoded characters shift the seek offset)" if not r_ else "", hloc(p, c))
         # the start position is taken immediately before the first line is read
         hs = [d.stmt for d in defs.get(start_n, []) if d.kind == "assign"]
         good = bool(hs)
@@ -372,7 +387,8 @@ def h_r1(p: Project, rep: Report):
             body = parent(st).body if hasattr(parent(st), "body") else []
             k = body.index(st) if st in body else -1
             nxt = body[k + 1] if 0 <= k < len(body) - 1 else None
-            good = good and isinstance(nxt, ast.Assign) and _is_chunk(text(nxt.value), src)
+            nv = getattr(nxt, "value", None) if isinstance(nxt, (ast.Assign, ast.AnnAssign)) else None
+            good = good and nv is not None and (_is_chunk(text(nv), src) or text(nv) in (f"{src}.readline()", f"{src}.read()"))
         rep.check("H-R1", "parse_header:header_start-just-before-first-read", good, "" if good else "the start position is not the stream position immediately before the first header line is read (or that line is altered as it is read)", hloc(p, fn0))
     pfn0 = p.get_class(HEADER, "OFXHeaderBase").own_func("parse")
     pfn = _flat2(p, HEADER, pfn0, p.get_class(HEADER, "OFXHeaderBase"))
@@ -486,14 +502,41 @@ def h_r3(p: Project, rep: Report):
         argt = ex.t(arg)
         ok = argt == f"{src}.read().decode(OFXHeaderV2.codec)"
         rep.check("H-R3", "parse_header:v2-decoded-with-header-codec", ok, f"the v2 header is searched in {argt[:70]}; expected the whole source decoded with OFXHeaderV2.codec" if not ok else "", hloc(p, ps))
-        # rewind before the read
-        dec = [s_ for s_ in stmts if isinstance(s_, ast.Assign) and isinstance(arg, ast.Name) and any(isinstance(t, ast.Name) and t.id == arg.id for t in s_.targets)]
-        for d in dec:
-            body = parent(d).body if hasattr(parent(d), "body") else []
-            k = body.index(d) if d in body else -1
-            prev = [b for b in body[:k] if isinstance(b, ast.Expr) and isinstance(b.value, ast.Call) and text(b.value.func) == f"{src}.seek"]
-            ok = bool(prev) and text(prev[-1].value) == f"{src}.seek(0)"
-            rep.check("H-R3", "parse_header:v2-rewinds", ok, "" if ok else "the source is not rewound to its start before it is re-read", hloc(p, d))
+        # rewind before the read: on every path to this parse, the last thing that moved the source before the
+        # whole-file read() is seek(0)
+        from . import paths as _PT3
+
+        try:
+            vpl = _PT3.enumerate_paths(fn, None, Expander(fn), resolve=False)
+        except AnalysisError as e:
+            rep.note(f"H-R3 undecided: {e}")
+            vpl = None
+        if vpl is not None:
+            vcfg = vpl.cfg
+            pnode = vcfg.node_of(ps)
+            rewound, seen_ = True, 0
+            for q in vpl:
+                pi = q.index_of(pnode.id) if pnode is not None else None
+                if pi is None:
+                    continue
+                moves = []
+                for j in range(pi + 1):
+                    n_ = vcfg.nodes[q.nodes[j]]
+                    if n_.stmt is None or n_.kind in ("join", "handlers"):
+                        continue
+                    for c_ in n_.calls():
+                        if isinstance(c_.func, ast.Attribute) and text(c_.func.value) == src and c_.func.attr in ("seek", "read", "readline", "readlines"):
+                            moves.append((j, c_))
+                reads_ = [k for k, (j, c_) in enumerate(moves) if c_.func.attr == "read" and not c_.args]
+                if not reads_:
+                    continue
+                seen_ += 1
+                k = reads_[-1]
+                prev_ = moves[k - 1][1] if k > 0 else None
+                if not (prev_ is not None and prev_.func.attr == "seek" and len(prev_.args) == 1 and text(prev_.args[0]) == "0"):
+                    rewound = False
+            if seen_:
+                rep.check("H-R3", "parse_header:v2-rewinds", rewound, "" if rewound else "the source is not rewound to its start (seek(0)) immediately before it is re-read as a whole", hloc(p, ps))
         # the slice
         tgt = ps.targets[0]
         idx_name = tgt.elts[1].id if isinstance(tgt, ast.Tuple) and len(tgt.elts) == 2 and isinstance(tgt.elts[1], ast.Name) else None
@@ -521,6 +564,37 @@ def _is_chunk(v: str, src: str) -> bool:
                 if v == f"{src}.{meth}.decode({q}{codec}{q})":
                     return True
     return False
+
+
+def _chunks_only(e, src: str, ex: Expander, depth=6) -> Optional[bool]:
+    """is the expression exactly a concatenation of reads from the source, each decoded with a single-byte codec?
+    True / False (something else is mixed in) / None (shape not recognised)"""
+    if depth <= 0:
+        return None
+    e = ex.x(e)
+    if _is_chunk(text(e), src):
+        return True
+    if isinstance(e, ast.BinOp) and isinstance(e.op, ast.Add):
+        a, b = _chunks_only(e.left, src, ex, depth - 1), _chunks_only(e.right, src, ex, depth - 1)
+        if a is False or b is False:
+            return False
+        return True if (a and b) else None
+    if isinstance(e, (ast.ListComp, ast.GeneratorExp)) and len(e.generators) == 1 and not e.generators[0].ifs:
+        return _chunks_only(e.elt, src, ex, depth - 1)
+    if isinstance(e, ast.Starred):
+        return _chunks_only(e.value, src, ex, depth - 1)
+    if isinstance(e, (ast.List, ast.Tuple)):
+        rs = [_chunks_only(x, src, ex, depth - 1) for x in e.elts]
+        if any(r is False for r in rs):
+            return False
+        return True if rs and all(rs) else None
+    if isinstance(e, ast.Call) and isinstance(e.func, ast.Attribute) and e.func.attr == "join" and isinstance(e.func.value, ast.Constant) and e.func.value.value == "" and len(e.args) == 1:
+        return _chunks_only(e.args[0], src, ex, depth - 1)
+    if isinstance(e, ast.Constant) and isinstance(e.value, str):
+        return True if e.value == "" else False
+    if isinstance(e, ast.Call) and isinstance(e.func, ast.Attribute) and e.func.attr in ("strip", "lstrip", "rstrip", "replace", "lower", "upper"):
+        return False
+    return None
 
 
 def b_r9_quote_backrefs(p: Project, rep: Report):
